@@ -1,228 +1,6 @@
-/-
-The 128-bit vector back end of Skinny-128 parallel ECB (`src/skinny128-parallel-vec128.c`).
-
-The round bodies are translated lane-generically (a vector is the 32-bit element of one lane: GCC's
-element-wise semantics of vector operators is part of the translator's trusted base); the load and
-store segments are translated with explicit lanes.  Shown here: the vector round on the rows of one
-lane is the C library's scalar 32-bit round on the block made of those rows, and load / store are
-the transposition between four consecutive blocks and four row vectors.
--/
-import SkinnyVerif.Lemmas.AllConfigs
-import SkinnyVerif.Gen.Vec128LeafLanes
-import SkinnyVerif.Gen.Vec128Pieces
-
-namespace SkinnyVerif.Lemmas
-open SkinnyVerif SkinnyVerif.Gen SkinnyVerif.Impl SkinnyVerif.Spec.Skinny
-
-theorem v128p_sbox_lane_eq : ∀ v, v128p_sbox_lane v = S8 v := forall_bv_eq _ _ (by decide +kernel)
-theorem v128p_inv_sbox_lane_eq : ∀ v, v128p_inv_sbox_lane v = S8inv v := forall_bv_eq _ _ (by decide +kernel)
-theorem v128p_sbox_lane' : v128p_sbox_lane = S8 := funext v128p_sbox_lane_eq
-theorem v128p_inv_sbox_lane' : v128p_inv_sbox_lane = S8inv := funext v128p_inv_sbox_lane_eq
-
-/-- a block from its four 32-bit rows -/
-def pack4 (r0 r1 r2 r3 : BitVec 32) : BitVec 128 :=
-  r0.setWidth 128 ||| (r1.setWidth 128 <<< 32) ||| (r2.setWidth 128 <<< 64) ||| (r3.setWidth 128 <<< 96)
-
-
-/-! ## reading rows, bytes and bits out of a packed block -/
-
-theorem pack4_getElem (a b c d : BitVec 32) (j : Nat) (hj : j < 128) :
-    (pack4 a b c d)[j] = if h0 : j < 32 then a[j] else if h1 : j < 64 then b[j - 32]'(by omega) else if h2 : j < 96 then c[j - 64]'(by omega) else d[j - 96]'(by omega) := by
-  simp only [pack4, BitVec.getElem_or, BitVec.getElem_setWidth, BitVec.getElem_shiftLeft]
-  by_cases h0 : j < 32
-  · have e1 : ¬ (32 ≤ j) := by omega
-    simp [h0, BitVec.getLsbD_eq_getElem, show j < 64 by omega, show j < 96 by omega]
-  · by_cases h1 : j < 64
-    · simp [h0, h1, show j < 96 by omega, BitVec.getLsbD_eq_getElem, show j - 32 < 32 by omega, BitVec.getLsbD_of_ge a j (by omega)]
-    · by_cases h2 : j < 96
-      · simp [h0, h1, h2, BitVec.getLsbD_eq_getElem, show j - 64 < 32 by omega, BitVec.getLsbD_of_ge a j (by omega), BitVec.getLsbD_of_ge b (j - 32) (by omega)]
-      · simp [h0, h1, h2, BitVec.getLsbD_eq_getElem, show j - 96 < 32 by omega, BitVec.getLsbD_of_ge a j (by omega), BitVec.getLsbD_of_ge b (j - 32) (by omega), BitVec.getLsbD_of_ge c (j - 64) (by omega)]
-
-set_option maxRecDepth 8000 in
-theorem pack4_row0 (a b c d : BitVec 32) : BitVec.extractLsb' 0 32 (pack4 a b c d) = a := by
-  bv_bits 32 <;> simp [pack4]
-
-set_option maxRecDepth 8000 in
-theorem pack4_row1 (a b c d : BitVec 32) : BitVec.extractLsb' 32 32 (pack4 a b c d) = b := by
-  bv_bits 32 <;> simp [pack4]
-
-set_option maxRecDepth 8000 in
-theorem pack4_row2 (a b c d : BitVec 32) : BitVec.extractLsb' 64 32 (pack4 a b c d) = c := by
-  bv_bits 32 <;> simp [pack4]
-
-set_option maxRecDepth 8000 in
-theorem pack4_row3 (a b c d : BitVec 32) : BitVec.extractLsb' 96 32 (pack4 a b c d) = d := by
-  bv_bits 32 <;> simp [pack4]
-
-set_option maxRecDepth 8000 in
-theorem pack4_byte0 (a b c d : BitVec 32) : BitVec.extractLsb' 0 8 (pack4 a b c d) = BitVec.extractLsb' 0 8 a := by
-  bv_bits 8 <;> simp [pack4]
-
-set_option maxRecDepth 8000 in
-theorem pack4_byte1 (a b c d : BitVec 32) : BitVec.extractLsb' 8 8 (pack4 a b c d) = BitVec.extractLsb' 8 8 a := by
-  bv_bits 8 <;> simp [pack4]
-
-set_option maxRecDepth 8000 in
-theorem pack4_byte2 (a b c d : BitVec 32) : BitVec.extractLsb' 16 8 (pack4 a b c d) = BitVec.extractLsb' 16 8 a := by
-  bv_bits 8 <;> simp [pack4]
-
-set_option maxRecDepth 8000 in
-theorem pack4_byte3 (a b c d : BitVec 32) : BitVec.extractLsb' 24 8 (pack4 a b c d) = BitVec.extractLsb' 24 8 a := by
-  bv_bits 8 <;> simp [pack4]
-
-set_option maxRecDepth 8000 in
-theorem pack4_byte4 (a b c d : BitVec 32) : BitVec.extractLsb' 32 8 (pack4 a b c d) = BitVec.extractLsb' 0 8 b := by
-  bv_bits 8 <;> simp [pack4]
-
-set_option maxRecDepth 8000 in
-theorem pack4_byte5 (a b c d : BitVec 32) : BitVec.extractLsb' 40 8 (pack4 a b c d) = BitVec.extractLsb' 8 8 b := by
-  bv_bits 8 <;> simp [pack4]
-
-set_option maxRecDepth 8000 in
-theorem pack4_byte6 (a b c d : BitVec 32) : BitVec.extractLsb' 48 8 (pack4 a b c d) = BitVec.extractLsb' 16 8 b := by
-  bv_bits 8 <;> simp [pack4]
-
-set_option maxRecDepth 8000 in
-theorem pack4_byte7 (a b c d : BitVec 32) : BitVec.extractLsb' 56 8 (pack4 a b c d) = BitVec.extractLsb' 24 8 b := by
-  bv_bits 8 <;> simp [pack4]
-
-set_option maxRecDepth 8000 in
-theorem pack4_byte8 (a b c d : BitVec 32) : BitVec.extractLsb' 64 8 (pack4 a b c d) = BitVec.extractLsb' 0 8 c := by
-  bv_bits 8 <;> simp [pack4]
-
-set_option maxRecDepth 8000 in
-theorem pack4_byte9 (a b c d : BitVec 32) : BitVec.extractLsb' 72 8 (pack4 a b c d) = BitVec.extractLsb' 8 8 c := by
-  bv_bits 8 <;> simp [pack4]
-
-set_option maxRecDepth 8000 in
-theorem pack4_byte10 (a b c d : BitVec 32) : BitVec.extractLsb' 80 8 (pack4 a b c d) = BitVec.extractLsb' 16 8 c := by
-  bv_bits 8 <;> simp [pack4]
-
-set_option maxRecDepth 8000 in
-theorem pack4_byte11 (a b c d : BitVec 32) : BitVec.extractLsb' 88 8 (pack4 a b c d) = BitVec.extractLsb' 24 8 c := by
-  bv_bits 8 <;> simp [pack4]
-
-set_option maxRecDepth 8000 in
-theorem pack4_byte12 (a b c d : BitVec 32) : BitVec.extractLsb' 96 8 (pack4 a b c d) = BitVec.extractLsb' 0 8 d := by
-  bv_bits 8 <;> simp [pack4]
-
-set_option maxRecDepth 8000 in
-theorem pack4_byte13 (a b c d : BitVec 32) : BitVec.extractLsb' 104 8 (pack4 a b c d) = BitVec.extractLsb' 8 8 d := by
-  bv_bits 8 <;> simp [pack4]
-
-set_option maxRecDepth 8000 in
-theorem pack4_byte14 (a b c d : BitVec 32) : BitVec.extractLsb' 112 8 (pack4 a b c d) = BitVec.extractLsb' 16 8 d := by
-  bv_bits 8 <;> simp [pack4]
-
-set_option maxRecDepth 8000 in
-theorem pack4_byte15 (a b c d : BitVec 32) : BitVec.extractLsb' 120 8 (pack4 a b c d) = BitVec.extractLsb' 24 8 d := by
-  bv_bits 8 <;> simp [pack4]
-
-def rotl32 (x : BitVec 32) (c : Nat) : BitVec 32 := (x <<< c) ||| (x >>> (32 - c))
-
-/-- the vector encryption round, written with the S-box leaf -/
-def refVEnc (r0 r1 r2 r3 : BitVec 32) (sk : BitVec 64) : BitVec 32 × BitVec 32 × BitVec 32 × BitVec 32 :=
-  let a0 := v128p_sbox r0 ^^^ sk.extractLsb' 0 32
-  let a1 := v128p_sbox r1 ^^^ sk.extractLsb' 32 32
-  let a2 := v128p_sbox r2 ^^^ 0x2#32
-  let b1 := rotl32 a1 8
-  let b2 := rotl32 a2 16
-  let b3 := rotl32 (v128p_sbox r3) 24
-  (b3 ^^^ (b2 ^^^ a0), a0, b1 ^^^ b2, b2 ^^^ a0)
-
-set_option maxRecDepth 8000
-set_option maxHeartbeats 8000000
-
-theorem v128p_enc_round_ref (r0 r1 r2 r3 : BitVec 32) (sk : BitVec 64) : v128p_enc_round r0 r1 r2 r3 sk = refVEnc r0 r1 r2 r3 sk := by
-  simp only [v128p_enc_round, refVEnc, v128p_sbox, rotl32, gen_unfold]
-
-
-/-- the vector decryption round, written with the inverse S-box leaf -/
-def refVDec (r0 r1 r2 r3 : BitVec 32) (sk : BitVec 64) : BitVec 32 × BitVec 32 × BitVec 32 × BitVec 32 :=
-  let n2 := r3 ^^^ r1
-  let n1 := r2 ^^^ n2
-  let n3 := r0 ^^^ r3
-  (v128p_inv_sbox (r1 ^^^ sk.extractLsb' 0 32), v128p_inv_sbox (rotl32 n1 24 ^^^ sk.extractLsb' 32 32),
-   v128p_inv_sbox (rotl32 n2 16 ^^^ 0x2#32), v128p_inv_sbox (rotl32 n3 8))
-
-theorem v128p_dec_round_ref (r0 r1 r2 r3 : BitVec 32) (sk : BitVec 64) : v128p_dec_round r0 r1 r2 r3 sk = refVDec r0 r1 r2 r3 sk := by
-  simp only [v128p_dec_round, refVDec, v128p_inv_sbox, rotl32, gen_unfold]
-
-syntax "vec_bits" num : tactic
-macro_rules
-  | `(tactic| vec_bits $n) => `(tactic|
-    (bv_bits $n <;>
-      (simp [gen_unfold, pack4_getElem, pack4_row0, pack4_row1, pack4_row2, pack4_row3, pack4_byte0, pack4_byte1, pack4_byte2, pack4_byte3, pack4_byte4, pack4_byte5, pack4_byte6, pack4_byte7, pack4_byte8, pack4_byte9, pack4_byte10, pack4_byte11, pack4_byte12, pack4_byte13, pack4_byte14, pack4_byte15, refVEnc, refVDec, rotl32, lane, extractLsb'_extractLsb'_le,
-             skinny128_sbox_32_getElem, skinny128_inv_sbox_32_getElem, v128p_sbox_getElem, v128p_inv_sbox_getElem,
-             sbox128_32_lane, inv_sbox128_32_lane, v128p_sbox_lane', v128p_inv_sbox_lane']
-       try (first
-            | ac_rfl
-            | (apply getElem_congr_fun
-               bv_bits 8 <;> (simp [lane]; try ac_rfl))))))
-
-theorem refVEnc_scalar (r0 r1 r2 r3 : BitVec 32) (sk : BitVec 64) :
-    pack4 (refVEnc r0 r1 r2 r3 sk).1 (refVEnc r0 r1 r2 r3 sk).2.1 (refVEnc r0 r1 r2 r3 sk).2.2.1 (refVEnc r0 r1 r2 r3 sk).2.2.2 =
-      skinny128_ecb_encrypt_round_32le (pack4 r0 r1 r2 r3) sk := by
-  vec_bits 128
-
-
-theorem refVDec_scalar (r0 r1 r2 r3 : BitVec 32) (sk : BitVec 64) :
-    pack4 (refVDec r0 r1 r2 r3 sk).1 (refVDec r0 r1 r2 r3 sk).2.1 (refVDec r0 r1 r2 r3 sk).2.2.1 (refVDec r0 r1 r2 r3 sk).2.2.2 =
-      skinny128_ecb_decrypt_round_32le (pack4 r0 r1 r2 r3) sk := by
-  vec_bits 128
-
-/-- rows of one lane as a block -/
-def packT (t : BitVec 32 × BitVec 32 × BitVec 32 × BitVec 32) : BitVec 128 := pack4 t.1 t.2.1 t.2.2.1 t.2.2.2
-
-/-- **one lane of the vector encryption round = the scalar 32-bit round of the C library** -/
-theorem v128p_enc_round_scalar (t : BitVec 32 × BitVec 32 × BitVec 32 × BitVec 32) (sk : BitVec 64) :
-    packT (v128p_enc_round t.1 t.2.1 t.2.2.1 t.2.2.2 sk) = skinny128_ecb_encrypt_round_32le (packT t) sk := by
-  rw [v128p_enc_round_ref]; exact refVEnc_scalar _ _ _ _ sk
-
-theorem v128p_dec_round_scalar (t : BitVec 32 × BitVec 32 × BitVec 32 × BitVec 32) (sk : BitVec 64) :
-    packT (v128p_dec_round t.1 t.2.1 t.2.2.1 t.2.2.2 sk) = skinny128_ecb_decrypt_round_32le (packT t) sk := by
-  rw [v128p_dec_round_ref]; exact refVDec_scalar _ _ _ _ sk
-
-/-- all rounds on one lane: the vector loop body iterated = the scalar loop body iterated -/
-theorem v128p_enc_rounds_scalar (sched : List (BitVec 64)) (t : BitVec 32 × BitVec 32 × BitVec 32 × BitVec 32) :
-    packT (sched.foldl (fun (a : BitVec 32 × BitVec 32 × BitVec 32 × BitVec 32) sk => v128p_enc_round a.1 a.2.1 a.2.2.1 a.2.2.2 sk) t) =
-      sched.foldl (fun st sk => skinny128_ecb_encrypt_round_32le st sk) (packT t) := by
-  induction sched generalizing t with
-  | nil => rfl
-  | cons sk rest ih => simp only [List.foldl_cons]; rw [ih, v128p_enc_round_scalar]
-
-theorem v128p_dec_rounds_scalar (sched : List (BitVec 64)) (t : BitVec 32 × BitVec 32 × BitVec 32 × BitVec 32) :
-    packT (sched.foldl (fun (a : BitVec 32 × BitVec 32 × BitVec 32 × BitVec 32) sk => v128p_dec_round a.1 a.2.1 a.2.2.1 a.2.2.2 sk) t) =
-      sched.foldl (fun st sk => skinny128_ecb_decrypt_round_32le st sk) (packT t) := by
-  induction sched generalizing t with
-  | nil => rfl
-  | cons sk rest ih => simp only [List.foldl_cons]; rw [ih, v128p_dec_round_scalar]
-
-/-! ## load and store: the transposition between four blocks and four row vectors -/
-
-/-- the rows of lane `j` of four row vectors -/
-def laneRows (rows : BitVec 128 × BitVec 128 × BitVec 128 × BitVec 128) (j : Nat) : BitVec 32 × BitVec 32 × BitVec 32 × BitVec 32 :=
-  (lane 32 j rows.1, lane 32 j rows.2.1, lane 32 j rows.2.2.1, lane 32 j rows.2.2.2)
-
-syntax "vec_ls" : tactic
-macro_rules
-  | `(tactic| vec_ls) => `(tactic|
-    (bv_bits 128 <;> simp [gen_unfold, packT, laneRows, pack4_getElem, lane, extractLsb'_extractLsb'_le]))
-
-theorem v128p_enc_load_lane (input : BitVec 512) (j : Nat) (hj : j < 4) :
-    packT (laneRows (v128p_enc_load input) j) = input.extractLsb' (128 * j) 128 := by
-  nat_cases j 4 <;> vec_ls
-
-theorem v128p_dec_load_lane (input : BitVec 512) (j : Nat) (hj : j < 4) :
-    packT (laneRows (v128p_dec_load input) j) = input.extractLsb' (128 * j) 128 := by
-  nat_cases j 4 <;> vec_ls
-
-theorem v128p_enc_store_lane (rows : BitVec 128 × BitVec 128 × BitVec 128 × BitVec 128) (j : Nat) (hj : j < 4) :
-    (v128p_enc_store rows.1 rows.2.1 rows.2.2.1 rows.2.2.2).extractLsb' (128 * j) 128 = packT (laneRows rows j) := by
-  nat_cases j 4 <;> vec_ls
-
-theorem v128p_dec_store_lane (rows : BitVec 128 × BitVec 128 × BitVec 128 × BitVec 128) (j : Nat) (hj : j < 4) :
-    (v128p_dec_store rows.1 rows.2.1 rows.2.2.1 rows.2.2.2).extractLsb' (128 * j) 128 = packT (laneRows rows j) := by
-  nat_cases j 4 <;> vec_ls
-
-end SkinnyVerif.Lemmas
+/- The 128-bit vector back end of Skinny-128 parallel ECB: all lemmas (see `Vec128Base`) -/
+import SkinnyVerif.Lemmas.Vec128Round
+import SkinnyVerif.Lemmas.Vec128LoadE
+import SkinnyVerif.Lemmas.Vec128LoadD
+import SkinnyVerif.Lemmas.Vec128StoreE
+import SkinnyVerif.Lemmas.Vec128StoreD
